@@ -493,6 +493,15 @@ func (j *Judge) Maintain(c *Context, res *drummer.VerifSchedResult, exhausted bo
 			if !k.failed[t] {
 				j.fail("C02", "delete_justified", "delete-not-failed", fmt.Sprintf("remove-member request targets (%d,%d) which is not classified failed", sid, t))
 			}
+			if m := v.Replicas[t]; m != nil {
+				// "a removal targets only a replica whose NodeHost has been silent": a member whose NodeHost reported within the
+				// timeout and lists the replica's log is restarted from its data (a restore), never removed
+				if h := c.NodeHostImage.Nodehosts[m.Address]; h != nil && c.available(h) && hasLog(h, sid, t) {
+					why := fmt.Sprintf("remove-member request targets (%d,%d) on %s, a NodeHost that reported %d logical seconds ago (timeout %d) and lists the replica's log: the member can be restarted from its data", sid, t, m.Address, c.Tick-h.Tick, TTL)
+					j.fail("C02", "delete_justified", "delete-targets-restorable-member", why)
+					j.fail("C12", "restore_excludes_repair", "delete-targets-restorable-member", why)
+				}
+			}
 			if !(2*len(k.ok) > len(v.Replicas)) {
 				j.fail("C02", "delete_justified", "delete-without-majority", fmt.Sprintf("remove-member request for shard %d with %d healthy of %d", sid, len(k.ok), len(v.Replicas)))
 			}
